@@ -67,6 +67,7 @@ type sched struct {
 	pick    func(p PointInfo) int
 	res     *Result
 	vars    map[string]*varState
+	atomics map[string][]int
 	trace   bool
 }
 
@@ -115,7 +116,7 @@ func unblocked(t *thread) bool {
 func Run(bodies []func(), pick func(p PointInfo) int, trace bool, horizon int) *Result {
 	runMu.Lock()
 	defer runMu.Unlock()
-	s := &sched{yield: make(chan struct{}), pick: pick, res: &Result{}, vars: map[string]*varState{}, trace: trace}
+	s := &sched{yield: make(chan struct{}), pick: pick, res: &Result{}, vars: map[string]*varState{}, atomics: map[string][]int{}, trace: trace}
 	for i, b := range bodies {
 		t := &thread{id: i, wake: make(chan struct{}), vc: make([]int, len(bodies))}
 		t.vc[i] = 1
@@ -292,6 +293,27 @@ func Access(id string, write bool) {
 	} else {
 		v.reads[t.id] = t.vc[t.id]
 		v.readAt[t.id] = here
+	}
+}
+
+// Atomic is a sync/atomic operation on (a field of) a package-level variable: a scheduling point
+// and a happens-before edge (kind 1 load = acquire, 2 store = release, 3 read-modify-write = both),
+// never a data access.
+func Atomic(id string, kind int) {
+	s, t := managed()
+	if t == nil {
+		return
+	}
+	Point("atomic", id)
+	if kind != 2 {
+		join(t.vc, s.atomics[id])
+	}
+	if kind != 1 {
+		c := t.release()
+		if kind == 3 {
+			join(c, s.atomics[id])
+		}
+		s.atomics[id] = c
 	}
 }
 
